@@ -5,6 +5,7 @@ package main
 import (
 	"fmt"
 	"go/types"
+	"regexp"
 	"sort"
 	"strings"
 )
@@ -125,8 +126,13 @@ func shortType(t types.Type) string {
 		}
 		return pp
 	})
+	s = byteRe.ReplaceAllString(s, "uint8")
+	s = runeRe.ReplaceAllString(s, "int32")
 	return s
 }
+
+var byteRe = regexp.MustCompile(`\bbyte\b`)
+var runeRe = regexp.MustCompile(`\brune\b`)
 
 func isTimeType(t types.Type) bool {
 	n, ok := t.(*types.Named)
